@@ -48,6 +48,19 @@ fn alloc_cfg(c: &RunCfg) -> AllocCfg {
 }
 
 /// One generated run.
+/// A from_owner owner whose destructor panics may be released by *any* operation that leaves no
+/// non-empty view of it (C03 allows that); the harness only models the consuming ones. Such a
+/// panic anywhere else is user code failing, not a violation: the run ends there, unjudged.
+fn owner_drop_panic_elsewhere(w: &mut World) -> bool {
+    if w.viol.iter().any(|v| v.kind == "unexpected-panic" && v.detail.contains(ops::OWNER_DROP_PANIC)) {
+        w.viol.clear();
+        w.probes.hit("owner_drop_panic_elsewhere");
+        true
+    } else {
+        false
+    }
+}
+
 fn run_generated(run_idx: u64, run_seed: u64, profile: &str, steps: usize, journal: &mut Journal, want_digest: bool) -> (RunCfg, RunResult) {
     let mut rng = Rng::new(run_seed);
     let cfg = draw_cfg(&mut rng, profile, steps);
@@ -73,6 +86,7 @@ fn run_generated(run_idx: u64, run_seed: u64, profile: &str, steps: usize, journ
     };
     let mut trace = Fnv::default();
     let mut had_panic = false;
+    let mut inconclusive = false;
     for step in 0..cfg.steps {
         let op = {
             let mut g = Gen { rng: &mut gen_rng, cfg: &cfg, script: &mut script };
@@ -81,6 +95,12 @@ fn run_generated(run_idx: u64, run_seed: u64, profile: &str, steps: usize, journ
         journal.line(&op.dump());
         w.step = step;
         let so = exec(&mut w, &op);
+        if owner_drop_panic_elsewhere(&mut w) {
+            inconclusive = true;
+            res.ops.push(op.clone());
+            res.steps += 1;
+            break;
+        }
         w.check_invariants(so.scribbled);
         if so.outcome == "panic" && !so.partial {
             had_panic = true;
@@ -117,7 +137,9 @@ fn run_generated(run_idx: u64, run_seed: u64, profile: &str, steps: usize, journ
             res.digests.push(f.0);
         }
     }
-    if w.viol.is_empty() {
+    if inconclusive {
+        w.abandon();
+    } else if w.viol.is_empty() {
         let mut ids: Vec<usize> = w.slots.keys().copied().collect();
         if cfg.drop_reverse {
             ids.reverse();
@@ -175,9 +197,14 @@ fn run_replay(rec: &J, want_digest: bool) -> RunResult {
         state_hashes: Vec::new(),
         stats: Default::default(),
     };
+    let mut inconclusive = false;
     for (k, op) in rec.arr("ops").iter().enumerate() {
         w.step = k;
         let so = exec(&mut w, op);
+        if owner_drop_panic_elsewhere(&mut w) {
+            inconclusive = true;
+            break;
+        }
         w.check_invariants(so.scribbled);
         res.steps += 1;
         if so.outcome == "panic" {
@@ -199,7 +226,9 @@ fn run_replay(rec: &J, want_digest: bool) -> RunResult {
             res.digests.push(f.0);
         }
     }
-    if w.viol.is_empty() && !rec.boolean("no_final_drops") {
+    if inconclusive {
+        w.abandon();
+    } else if w.viol.is_empty() && !rec.boolean("no_final_drops") {
         let mut order: Vec<usize> = rec.arr("drop_order").iter().map(|x| x.as_int() as usize).collect();
         for id in w.slots.keys() {
             if !order.contains(id) {
